@@ -229,7 +229,10 @@ IsDone(s) == s.ph = "DONE"
 Step(s, b) == IF IsDone(s) THEN s ELSE [StepPh(s, b) EXCEPT !.pos = s.pos + 1]
 
 RECURSIVE RunFrom(_, _, _)
-RunFrom(s, seq, i) == IF i > Len(seq) THEN s ELSE RunFrom(Step(s, seq[i]), seq, i + 1)
+\* (the test on t.pos only forces t before the recursive call: TLC passes operator arguments
+\* lazily, and a chain of Len(seq) suspended Steps overflows its stack on long inputs)
+RunFrom(s, seq, i) == IF i > Len(seq) THEN s
+                      ELSE LET t == Step(s, seq[i]) IN IF t.pos >= 0 THEN RunFrom(t, seq, i + 1) ELSE t
 RunOn(s, seq) == RunFrom(s, seq, 1)
 Run(kind, cfg, cap, seq) == RunFrom(InitState(kind, cfg, cap), seq, 1)
 
